@@ -260,6 +260,9 @@ def check(prop, tier, master, cases=None, src=None, log=print, write_evidence=Tr
         log("  signature=%s cases=%d detail=%s" % (s, count, str(v.get("detail"))[:400]))
     if len(new_sigs) > len(reported):
         log("  (+%d further distinct violation signatures not minimised: %s)" % (len(new_sigs) - len(reported), sorted(new_sigs)[len(reported):][:10]))
+    vacuous = stats.get("vacuous_baseline_failed", 0) + stats.get("probe:reference_failed", 0)
+    if vacuous * 2 > max(1, len(outs)):
+        log("NOTE: %d of %d cases were vacuous (their fault-free reference run failed): this run says little about %s - the failures themselves are C16's business" % (vacuous, len(outs), prop))
     wall = time.monotonic() - t0
     if write_evidence:
         ev = build_evidence(prop, mod, tier, master, outs, stats, sigs, nt_sigs, violations, known, new_sigs, wall, extra, min_info, src)
